@@ -23,6 +23,8 @@ if REPO not in sys.path:
 SCRATCH = os.path.join(VERIF, '.scratch')
 REPLAYS = os.path.join(VERIF, 'replays')
 EVIDENCE = os.path.join(VERIF, 'evidence')
+if 'COMPMECH_REPO' in os.environ or os.environ.get('VERIF_MUTANT'):
+    EVIDENCE = os.path.join(SCRATCH, 'evidence_mut')   # evaluation of seeded changes never touches the committed evidence
 PY = '/venv/bin/python'
 ALLOWED_AXIOMS = {'propext', 'Classical.choice', 'Quot.sound'}
 FORBIDDEN = re.compile(r'\bsorry\b|\badmit\b|^axiom |native_decide|bv_decide|implemented_by|\bunsafe |maxHeartbeats 0\b')
